@@ -176,6 +176,34 @@ def kwargs_predicate_complete():
     return n, fails
 
 
+def default_valued_factories():
+    """'on every execution (first call and every cached repeat alike)': factories whose optional parameters have array / list / nan / None defaults (they enter the graph cache key
+    through the recorded signature) - three executions each, two factories that differ only in the default must not share a compiled function's result"""
+    import einx
+    out = []
+    x = np.ones((2, 3))
+    defaults = [np.zeros(3), np.ones(3), [1, 2], float("nan"), None, np.float32(1.5), (np.zeros(2), "s"), {"k": np.arange(2)}]
+    for i, dflt in enumerate(defaults):
+        calls = []
+
+        def fac(shape, init=dflt, _i=i):
+            calls.append(shape)
+            return np.full(shape, float(_i))
+
+        d = {"op": "add", "description": "a b, b", "shapes": [[2, 3], "factory"], "factory_positions": [1], "factory_kinds": [f"default={type(dflt).__name__}"]}
+        bad = None
+        for rep in range(3):
+            o = harness.outcome(lambda: einx.add("a b, b", x, fac), 20)
+            if o[0] != "ok":
+                bad = f"execution {rep + 1} of a factory with a default of type {type(dflt).__name__} fails: {o[1:]}"
+                break
+            if not np.array_equal(o[1], np.full((2, 3), 1.0 + i)) or len(calls) != rep + 1 or calls[-1] != (3,):
+                bad = f"execution {rep + 1}: result {np.asarray(o[1]).tolist()} / {len(calls)} factory calls with {calls[-1:]} (expected the value of THIS factory, one call per execution with shape (3,))"
+                break
+        out.append((("exception" if bad and "fails" in bad else "mismatch") if bad else "ok", d, bad))
+    return out
+
+
 def run(tier, seed):
     chk = Check("C13", tier, seed, "other")
     ok, sites, failing = frame.rule_flow_api()
@@ -187,7 +215,7 @@ def run(tier, seed):
     n, fails = kwargs_predicate_complete()
     chk.add_rule("C13.P.kwargs", not fails and n == 128, [f"{n} signature classes (kinds of name/arg_index/signature x **kwargs): exhaustive over the finite domain"], fails[:3], "keyword-forwarding predicate, complete enumeration on the real _call_tensorfactory")
     m = 10 if tier == "quick" else 400
-    res = [x for r in harness.pmap(_work, [(seed, i) for i in range(m)]) for x in r]
+    res = [x for r in harness.pmap(_work, [(seed, i) for i in range(m)]) for x in r] + default_valued_factories()
     fails = [r for r in res if r[0] not in ("ok", "skipped-underdetermined")]
     seen = set()
     for st, d, detail in fails:
